@@ -50,6 +50,10 @@ CHECKS = {
  'C06': dict(engine='Refs', design='6 (C06)', technique='TLA+ spec Refs.tla enumerates (TLC) tables with INDEX lists / IMPLIED / foreign indices / augmenting rows in every text order, OBJECTS-NOTIFICATIONS-VARIABLES lists, and compliance statements with every GROUP/OBJECT clause order; rendered module pairs compiled by the real MibCompiler with both generators, pysnmp modules executed by the real MibBuilder; observations validated by TLC (RefsTrace)',
              text='NodeType, IndexFaithful (order, IMPLIED flag, defining module), AugmentsTarget, ListsFaithful, ComplianceFaithful evaluated on the JSON document and on the executed pysnmp objects (getIndexNames, getObjects, registered augmentions) for all 2579 scenarios of the model.',
              note='Trusted: TLC; renderer; the name table mapping observed (module, object) pairs back to scenario references. Scope: 1-3 columns, lists of length <=3, <=2 MODULE parts with <=3 compliance items; one fixed companion module. The pysnmp side is observed for a seeded sample of 400 scenarios in the quick tier.'),
+
+ 'C05': dict(engine='Types', design='6 (C05)', technique='TLA+ spec Types.tla enumerates (TLC) type chains, constraint alternatives over symbolic boundary values in every literal form, enumerations/BITS, and the DEFVAL notation x base-class table, and defines BaseOf/ExpDefval; rendered module pairs compiled by the real MibCompiler with both generators, pysnmp classes read through the real MibBuilder; observations validated by TLC (TypesTrace)',
+             text='Compiles, SyntaxParent, ChainLinks, ChainDefval, SyntaxExact (every range/SIZE alternative in order, denoting the written integers; decimal/hex/binary spellings of one value agree), NamedExact, DefvalFaithful for chains of 0-3 derived types (assignment / TEXTUAL-CONVENTION, refined, imported, any declaration order, namesake decoys), boundary values of all numeric token classes, every DEFVAL notation against every base class at chain depth 0-2.',
+             note='Trusted: TLC; renderer; harness tables resolving symbolic value ids and default denotations. Scope: quick tier replays all defval/named scenarios and seeded samples (1500 each) of the chain and range families through JSON, 350 of them through pysnmp. 64-bit arithmetic is never done in TLC (symbolic ids). Open findings on the pysnmp side are listed in known_findings.json.'),
 }
 PENDING = 'check under construction in this round; will be claimed when its TLA+ spec, replay and trace validation exist'
 
@@ -68,6 +72,7 @@ m = {
              {'name': 'OidTree', 'path': 'specs/OidTree.tla', 'serves_properties': ['C01'], 'kind_free_text': 'TLA+ builder of OID forests over module sets with ground-truth OID operator; OidTreeTrace.tla'},
              {'name': 'Decls', 'path': 'specs/Decls.tla', 'serves_properties': ['C03'], 'kind_free_text': 'TLA+ builder of declaration lists with ExpectedDoc; DeclsTrace.tla'},
              {'name': 'Refs', 'path': 'specs/Refs.tla', 'serves_properties': ['C06'], 'kind_free_text': 'TLA+ enumeration of structural references (tables, lists, compliance) with expected targets; RefsTrace.tla'},
+             {'name': 'Types', 'path': 'specs/Types.tla', 'serves_properties': ['C05'], 'kind_free_text': 'TLA+ enumeration of syntaxes, constraints and defaults with BaseOf / ExpDefval ground truth; TypesTrace.tla'},
              {'name': 'OidIndex', 'path': 'specs/OidIndex.tla', 'serves_properties': ['C18'], 'kind_free_text': 'TLA+ model of the persistent OID->module index and its merge/compaction; OidIndexTrace.tla'}],
  'checks': [], 'not_applicable': [],
  'notes': 'All checks: cwd=/verif, ./check <id> --tier quick|thorough; exit 0 pass, 1 violation (VIOLATION line), 2 machinery failure. known_findings.json lists open findings and fixed: records.',
